@@ -132,6 +132,14 @@ func runC02(a *A) {
 		a.ruleFireGuard(a.Named("window", "TumblingWindow"), a.Method("window", "TumblingWindow", "checkAndTriggerWindows"))
 		a.ruleFireGuard(a.Named("window", "SlidingWindow"), a.Method("window", "SlidingWindow", "checkAndTriggerWindows"))
 		a.ruleSessionExpiry()
+		// the session expiry table identifies lastActive+timeout with the session end; that needs lastActive monotone
+		add := a.Method("window", "SessionWindow", "Add")
+		la := a.FieldOf(a.Named("window", "session"), "lastActive")
+		for _, st := range storesToField(add, la) {
+			if !isFreshObject(st.Addr.(*ssa.FieldAddr)) {
+				a.storeOnlyIfGreater(add, st, la, false)
+			}
+		}
 	})
 	a.Rule("flow/late-policy", 9, func() {
 		for _, w := range []string{"TumblingWindow", "SlidingWindow", "SessionWindow"} {
